@@ -128,7 +128,7 @@ theorem small_cof_total {N n p P : Nat} {s : St} (hd : Dom N n p P) (h : CInv N 
     (hey2 : 2 * |ey| ≤ s.x ∨ (s.x = s.y ∧ |ey| ≤ 1)) (hg : ex * s.x + ey * s.y = g)
     (hg0 : 0 ≤ g) (hgy : g ≤ s.y) (hy1 : 1 ≤ s.y) :
     lin2 N ex s.A ey s.C = some (ex * s.A + ey * s.C) ∧ lin2 N ex s.B ey s.D = some (ex * s.B + ey * s.D) ∧
-      |ex * s.A + ey * s.C| ≤ 64 * P + 1 := by
+      |ex * s.A + ey * s.C| ≤ 64 * P + 1 ∧ |ex * s.B + ey * s.D| ≤ 64 * P + 1 := by
   obtain ⟨r1, r2⟩ := h.row2
   have hL := hd.L
   have hnP : (n : Int) ≤ P := by exact_mod_cast hd.hn
@@ -200,8 +200,8 @@ theorem small_cof_total {N n p P : Nat} {s : St} (hd : Dom N n p P) (h : CInv N 
         linarith
       exact ⟨lin2_of_abs hL (by linarith) (by linarith) (by linarith), h3⟩
   obtain ⟨k1, k2⟩ := key s.A s.C p h.zA r1 hp0 hpP h.cA h.cC E1
-  obtain ⟨k3, _⟩ := key s.B s.D n h.zB r2 hn0 hnP h.cB h.cD E2
-  exact ⟨k1, k3, k2⟩
+  obtain ⟨k3, k4⟩ := key s.B s.D n h.zB r2 hn0 hnP h.cB h.cD E2
+  exact ⟨k1, k3, k2, k4⟩
 
 /-- bound of the new cofactor `C' = a A + b C` of a quotient step: `2 y |C'| <= 125 P`, given
 `x |C'| <= |A| r' + q' m`, `2 r' <= x`, `q' y <= 2 x`, `|A| y <= 121 P`, `m <= P` -/
@@ -634,17 +634,23 @@ kept, returned cofactors in range -/
 theorem gcdStep_cof_total {N n p P : Nat} (hd : Dom N n p P) {s0 : St}
     (h : CInv N n p P (swapSt s0)) :
     ∃ st, gcdStep N N true s0 = some st ∧ (∀ s', st = .next s' → CInv N n p P (swapSt s')) ∧
-      (∀ d u v, st = .ret d u v → |u| ≤ 64 * (P : Int) + 1) := by
+      (∀ d u v, st = .ret d u v → |u| ≤ 64 * (P : Int) + 1 ∧ |v| ≤ 64 * (P : Int) + 1) := by
   unfold gcdStep
   simp only
   generalize swapSt s0 = s at *
   by_cases hlx : bits s.x = 0
   · rw [if_pos hlx]
-    exact ⟨_, rfl, fun s' hs => by simp at hs, fun d u v hs => by simp at hs; rw [← hs.2.1]; exact le_trans h.cC (by have : (0 : Int) ≤ P := Int.natCast_nonneg _; linarith)⟩
+    exact ⟨_, rfl, fun s' hs => by simp at hs, fun d u v hs => by
+      simp at hs; rw [← hs.2.1, ← hs.2.2]
+      have : (0 : Int) ≤ P := Int.natCast_nonneg _
+      exact ⟨le_trans h.cC (by linarith), le_trans h.cD (by linarith)⟩⟩
   · rw [if_neg hlx]
     by_cases hly : bits s.y = 0
     · rw [if_pos hly]
-      exact ⟨_, rfl, fun s' hs => by simp at hs, fun d u v hs => by simp at hs; rw [← hs.2.1]; exact le_trans h.cA (by have : (0 : Int) ≤ P := Int.natCast_nonneg _; linarith)⟩
+      exact ⟨_, rfl, fun s' hs => by simp at hs, fun d u v hs => by
+        simp at hs; rw [← hs.2.1, ← hs.2.2]
+        have : (0 : Int) ≤ P := Int.natCast_nonneg _
+        exact ⟨le_trans h.cA (by linarith), le_trans h.cB (by linarith)⟩⟩
     · rw [if_neg hly]
       have hy0 : s.y ≠ 0 := fun h0 => hly (bits_eq_zero.2 h0)
       by_cases hsm : bits s.x < 64 ∧ bits s.y < 64
@@ -662,13 +668,13 @@ theorem gcdStep_cof_total {N n p P : Nat} (hd : Dom N n p P) {s0 : St}
           have : Nat.gcd s.x s.y ≤ s.y := Nat.gcd_le_right _ hypos
           have e : Int.gcd (s.x : Int) (s.y : Int) = Nat.gcd s.x s.y := Int.gcd_natCast_natCast _ _
           rw [e]; exact_mod_cast this
-        obtain ⟨hu, hv, hub⟩ := small_cof_total hd h b1 b2 b3 b4 hg1.symm (by rw [hg2]; exact Int.natCast_nonneg _)
+        obtain ⟨hu, hv, hub, hvb⟩ := small_cof_total hd h b1 b2 b3 b4 hg1.symm (by rw [hg2]; exact Int.natCast_nonneg _)
           hgy hypos
         rw [hu, hv]
         refine ⟨_, rfl, fun s' hs => by simp at hs, fun d u' v' hs => ?_⟩
         simp at hs
-        rw [← hs.2.1]
-        linarith
+        rw [← hs.2.1, ← hs.2.2]
+        exact ⟨hub, hvb⟩
       · rw [if_neg hsm]
         have hbm := bits_mono h.hyx
         have hmax : max (bits s.x) (bits s.y) = bits s.x := Nat.max_eq_left hbm
@@ -698,7 +704,8 @@ theorem gcdStep_cof_total {N n p P : Nat} (hd : Dom N n p P) {s0 : St}
 /-- the extended loop with the real cofactor width returns for every fuel that suffices -/
 theorem gcdLoop_cof_total {N n p P : Nat} (hd : Dom N n p P) :
     ∀ (f : Nat) (s : St), CInv N n p P (swapSt s) → s.x * s.y * 3 ^ f < 4 ^ f →
-    ∃ d u v, gcdLoop N N true (f + 1) s = some (d, u, v) ∧ |u| ≤ 64 * (P : Int) + 1 := by
+    ∃ d u v, gcdLoop N N true (f + 1) s = some (d, u, v) ∧ |u| ≤ 64 * (P : Int) + 1 ∧
+      |v| ≤ 64 * (P : Int) + 1 := by
   intro f
   induction f with
   | zero =>
@@ -771,7 +778,8 @@ theorem Dom_of_lt {N n p : Nat} (hN : 0 < N) (hn : n < 2 ^ (64 * N - 7)) (hp : p
 /-- `gcd_internal::<N, true>` never panics on operands below `2^(64N-7)` -/
 theorem gcdInternal_ext_total {N n p : Nat} (hN : 0 < N) (hn : n < 2 ^ (64 * N - 7))
     (hp : p < 2 ^ (64 * N - 7)) :
-    ∃ d u v, gcdInternal N true n p = some (d, u, v) ∧ |u| ≤ 64 * ((max n p : Nat) : Int) + 1 := by
+    ∃ d u v, gcdInternal N true n p = some (d, u, v) ∧ |u| ≤ 64 * ((max n p : Nat) : Int) + 1 ∧
+      |v| ≤ 64 * ((max n p : Nat) : Int) + 1 := by
   have hd := Dom_of_lt hN hn hp
   have hle : 2 ^ (64 * N - 7) ≤ M N := by unfold M; exact Nat.pow_le_pow_right (by decide) (by omega)
   have hnM : n < M N := by omega
